@@ -200,6 +200,49 @@ def c05_nonintegral(ftype, src, must_reject=False):
     return {"violates": not ok, "detail": None if ok else f"{ftype} accepted {src} and holds {stored!r}, which is written as {packed!r} ({type(packed).__name__}): neither converted to an integer nor rejected"}
 
 
+def c05_history_pair(ftype, first, second):
+    from flow.record import RecordDescriptor
+
+    D = RecordDescriptor("c05/rec", [(ftype, "x"), ("varint", "n")])
+    lst = ftype.endswith("[]")
+    a, b = D(n=1), D(n=2)
+    a.x = [_eval(first)] if lst else _eval(first)
+    try:
+        b.x = [_eval(second)] if lst else _eval(second)
+        accepted = True
+    except Exception:
+        accepted = False
+    bad = None
+    if second.endswith(".0") and accepted:
+        bad = f"{ftype} accepted the float {second} after the equal integer had been accepted (holds {b.x!r})"
+    elif accepted and _serialisable(b):
+        bad = f"accepted but not serialisable: {_serialisable(b)}"
+    return {"violates": bool(bad), "detail": bad}
+
+
+def c05_grouped_assign(ftype, x):
+    from flow.record import GroupedRecord, RecordDescriptor
+
+    lim = {"uint16": 0xFFFF, "boolean": 1}[ftype]
+    member = RecordDescriptor("c05/ma", [(ftype, "x"), ("string", "s")])(s="t")
+    g = GroupedRecord("c05/grp", [member, RecordDescriptor("c05/mb", [("varint", "k")])(k=1)])
+    try:
+        g.x = int(x)
+        g.s = b"by\xfftes"
+        accepted = True
+    except Exception:
+        accepted = False
+    valid = 0 <= int(x) <= lim
+    bad = None
+    if accepted and not valid:
+        bad = f"a {ftype} field accepted {int(x)} through a grouped record and holds {member.x!r}"
+    elif accepted and (type(member.x).__name__ != ftype or type(member.s).__name__ != "string" or _serialisable(member)):
+        bad = f"assigned through a grouped record the member holds {type(member.x).__name__} {member.x!r} / {type(member.s).__name__} {member.s!r} ({_serialisable(member) or 'serialisable'})"
+    elif not accepted and valid:
+        bad = f"a {ftype} field rejected the representable value {int(x)} through a grouped record"
+    return {"violates": bool(bad), "detail": bad}
+
+
 def c05_cross_value(src_type, dst_type, x):
     """a field value of one integer type (taken from another record) offered to a field of another integer type: the target's range decides"""
     from flow.record import RecordDescriptor
@@ -428,4 +471,4 @@ def c05_cross_types(seed, n):
     return {"violates": False, "cases": cases}
 
 
-CALLS = {"c05_naive_own_class": c05_naive_own_class, "c05_nonintegral": c05_nonintegral, "c05_json_writable": c05_json_writable, "c05_cross_value": c05_cross_value, "c05_assign": c05_assign, "c05_expect": c05_expect, "c05_range": c05_range, "c05_outcome": c05_outcome, "c05_cross_types": c05_cross_types, "c05_digest": c05_digest, "c05_legacy_list": c05_legacy_list, "c05_list_pair": c05_list_pair, "c05_init": c05_init, "c05_replace": c05_replace, "c05_capture": c05_capture, "c05_decode": c05_decode}
+CALLS = {"c05_history_pair": c05_history_pair, "c05_grouped_assign": c05_grouped_assign, "c05_naive_own_class": c05_naive_own_class, "c05_nonintegral": c05_nonintegral, "c05_json_writable": c05_json_writable, "c05_cross_value": c05_cross_value, "c05_assign": c05_assign, "c05_expect": c05_expect, "c05_range": c05_range, "c05_outcome": c05_outcome, "c05_cross_types": c05_cross_types, "c05_digest": c05_digest, "c05_legacy_list": c05_legacy_list, "c05_list_pair": c05_list_pair, "c05_init": c05_init, "c05_replace": c05_replace, "c05_capture": c05_capture, "c05_decode": c05_decode}
